@@ -84,6 +84,7 @@ type Ctx struct {
 	canon      *canonTable
 	retBusy    map[*ssa.Function]bool
 	factOf    map[string]Fact
+	handleFn  *ssa.Function
 	factDepth  int
 }
 
